@@ -73,6 +73,16 @@ def _tile(ck, p, byk):
     # the panic arm is the only other way on: the token is pushed or the function diverges/returns
     ck.decide(rule, "PlainEnglish::parse", start_is_cursor and ends_ok and pushed, f.span,
               "token span = (%s, %s); span start is the cursor=%s; on every back edge cursor == span end=%s; a token is pushed on every iteration that continues=%s" % (cx.show(s_lin), cx.show(e_lin), start_is_cursor, ends_ok, pushed))
+    # the token list only grows: a token taken out again (pop / truncate / remove / retain ...) leaves the
+    # characters it covered without a token - and makes the end of the text look different from the same
+    # characters in the middle of a longer text
+    from .c13 import ops_on, _base_local
+    pv_ = Prov(f)
+    pcalls = [(bi, t) for bi, t in f.calls() if method(t) == "push"]
+    tl = _base_local(f, pv_, pcalls[0][1]["args"][0]) if pcalls else None
+    ops = sorted({m for m, _, _ in ops_on(f, pv_, tl)}) if tl is not None else []
+    shrink = [m for m in ops if m in ("pop", "truncate", "remove", "swap_remove", "retain", "retain_mut", "drain", "clear", "split_off", "dedup", "dedup_by", "dedup_by_key", "insert", "swap", "reverse", "sort", "sort_by", "sort_by_key")]
+    ck.decide(rule, "PlainEnglish::parse:only-grows", bool(ops) and not shrink, f.span, "operations on the token vector: %s%s" % (ops, "" if not shrink else " - %s takes tokens out (or moves them) after they were laid end to end: the text is no longer tiled, and a paragraph at the end of the input is tokenised differently from the same paragraph followed by more text" % shrink))
     # progress: end - start >= 1 under the lexer contract
     ck.extra["tile_progress_uses_lexer_contract"] = True
 
